@@ -188,6 +188,20 @@ example : (29 : Int).natAbs < 2 ^ 50 ∧ (-199998 : Int).natAbs < 2 ^ 50 ∧
     (2 ^ 50 - 1 : Int).natAbs < 2 ^ 50 ∧
     newScaled .repaired (parseDec (2 ^ 50 - 1) 4) = (2 ^ 50 - 1, -4) := by decide +kernel
 
+/-- sentence 1 of the property carries no magnitude bound, binary64 forces one: the decimals 2^53 and
+    2^53 + 1 (no fractional digit at all) are the SAME double, so no conversion of that double can return
+    both; the domain of clause (a) is therefore bounded, at `d = 0` by exactly 2^53 (the largest numerator
+    the theorem above admits is 2^50 - 1; between 2^50 and the first pair of decimals that collide the
+    clause is neither proved nor refuted — for d = 1..4 a search on the real code from 2^51 to 2^51 + 3*10^7
+    found no failing decimal). Kernel-checked. -/
+theorem c19_scaled_exact_needs_bound :
+    parseDec (2 ^ 53 + 1) 0 = parseDec (2 ^ 53) 0 ∧
+    newScaled .repaired (parseDec (2 ^ 53 + 1) 0) = (2 ^ 53, 0) ∧
+    newScaled .repaired (parseDec (2 ^ 53 - 1) 0) = (2 ^ 53 - 1, 0) := by decide +kernel
+
+/-- non-vacuity: 2^53 + 1 is not below the bound of `ScaledExact`, 2^50 - 1 is -/
+example : ¬ ((2 ^ 53 + 1 : Int).natAbs < 2 ^ 50) ∧ (2 ^ 50 - 1 : Int).natAbs < 2 ^ 50 := by decide
+
 /-! ## 4. Clause (b): within 0.0001 below 2^53 / 10^4 — and not above -/
 
 /-- clause (b): every normal double `v = ± m * 2^-E` of magnitude at most `(2^53 - 1) / 10^4` (≈ 9.007e11)
